@@ -1,7 +1,7 @@
 """C50 — content views always render safely; the DNS view re-encodes faithfully.
 
 Part 1 (render): every registered view (Python and Rust) x {explicit selection, auto} x message kinds (HTTP request /
-response with content types, TCP, UDP, WebSocket text/binary, DNS message) x inputs from per-format generators (JSON,
+response with well-formed, unknown, absent, duplicated and malformed/degenerate Content-Type headers, TCP, UDP, WebSocket text/binary, DNS message) x inputs from per-format generators (JSON,
 XML/HTML, CSS, JS, GraphQL, protobuf, gRPC frames, MQTT, multipart, urlencoded, msgpack, images, zip archives with hostile
 member names, DNS wire format, socket.io, WBXML, HTTP/3 frames, arbitrary bytes), each optionally mutated (truncate, byte
 flips, splice of control/escape sequences).
@@ -14,6 +14,7 @@ wire bytes and from reencode_message(prettify_message(m).text); both parses must
 """
 import io
 import json
+import re
 import signal
 import struct
 import unicodedata
@@ -34,7 +35,7 @@ ASSUMPTIONS = [
 ]
 LEVEL_TEXT = "Random exploration of all views with structured and mutated inputs; DNS round trip against an independent wire parser."
 LEVEL_NOTE = "flow/message construction via mitmproxy.test.tflow; zipfile/json from the standard library to build inputs"
-QUICK_N = 40_000
+QUICK_N = 30_000
 THOROUGH_N = 3_000_000
 
 VIEWS = ["auto", "dns", "graphql", "grpc", "hex dump", "hex stream", "http/3 frames", "image", "javascript", "json", "mqtt",
@@ -252,6 +253,18 @@ CTYPES = {
     "zip": [b"application/zip"], "dns": [b"application/dns-message"], "socketio": [b"text/plain"], "wbxml": [b"application/vnd.wap.wbxml", b"application/vnd.ms-sync.wbxml"],
     "h3": [b"application/octet-stream"], "bytes": [b"text/plain", b"text/plain; charset=latin-1", b"application/octet-stream", b"x/y; charset=nope"],
 }
+# malformed / degenerate Content-Type values a peer can send: no slash, empty, only parameters, stray separators, unknown
+# types, odd parameters, non-ASCII, control characters, very long
+_odd_ctype = st.one_of(
+    st.sampled_from([b"", b" ", b"json", b"text", b"*", b"*/*", b"/", b"//", b"text/", b"/json", b";", b";;", b"; charset=utf-8", b"=", b",",
+                     b"text/plain;", b"text/plain; charset", b"text/plain; charset=", b"text/plain; =x", b"text/plain; charset=\"utf-8", b"text/plain;;;charset=utf-8",
+                     b"text/plain, application/json", b"application/json/extra", b"TEXT/HTML; CHARSET=UTF-8", b"text /plain", b"text/ plain", b"text/plain ; charset = x",
+                     b"application/x-unknown-thing", b"x/y", b"multipart/form-data", b"multipart/form-data; boundary=", b"multipart/form-data; boundary=\"",
+                     "text/pl\u00e4in".encode(), "\u00e4\u00f6".encode(), b"\xff\xfe", b"text/plain; charset=\xff", b"text/\x1b[31mplain", b"\x00", b"text/plain\x00",
+                     b"a" * 5000, b"a/" + b"b" * 5000, b"text/plain; " + b"p=v; " * 800, b"/" * 300, b";" * 300]),
+    st.lists(st.sampled_from([b"text", b"json", b"application", b"/", b";", b"=", b" ", b",", b"charset", b"utf-8", b"\"", b"*", b"+", b"xml", b"\xe4", b"boundary"]),
+             max_size=7).map(b"".join),
+)
 _mut = st.lists(st.one_of(
     st.tuples(st.just("trunc"), st.integers(0, 400)),
     st.tuples(st.just("flip"), st.integers(0, 400), st.integers(0, 255)),
@@ -281,8 +294,11 @@ def _case(draw):
     msg = draw(st.sampled_from(["http-req", "http-resp", "http-resp", "tcp", "udp", "ws-text", "ws-bin"] + (["dns", "dns", "udp", "tcp", "dns"] if fam == "dns" else [])))
     if fam == "dns" and msg == "tcp":
         data = struct.pack("!H", len(data) & 0xFFFF) + data   # DNS over TCP carries a length prefix
-    ctype = draw(st.one_of(st.none(), st.sampled_from(CTYPES[fam]), st.sampled_from(CTYPES[fam]), st.sampled_from(sum(CTYPES.values(), []))))
-    return {"family": fam, "data": data, "view": view, "msg": msg, "ctype": ctype, "port": draw(st.sampled_from([80, 443, 53, 5353, 1883])),
+    ctype = draw(st.one_of(st.none(), st.sampled_from(CTYPES[fam]), st.sampled_from(CTYPES[fam]), st.sampled_from(CTYPES[fam]),
+                           st.sampled_from(sum(CTYPES.values(), [])), _odd_ctype))
+    # a second Content-Type header (duplicated / conflicting), rarely
+    ctype2 = draw(st.one_of(st.none(), st.none(), st.none(), st.none(), st.none(), st.sampled_from(CTYPES[fam]), _odd_ctype))
+    return {"family": fam, "data": data, "view": view, "msg": msg, "ctype": ctype, "ctype2": ctype2, "port": draw(st.sampled_from([80, 443, 53, 5353, 1883])),
             "cenc": draw(st.sampled_from([None, None, None, None, b"gzip", b"identity", b"nope"]))}
 
 
@@ -426,8 +442,10 @@ def make_message(case):
         f.messages = [msg]
         return msg, f
     hdrs = []
-    if case["ctype"]:
+    if case["ctype"] is not None:
         hdrs.append((b"content-type", bytes(case["ctype"])))
+    if case.get("ctype2") is not None:
+        hdrs.append((b"Content-Type", bytes(case["ctype2"])))
     if case["cenc"]:
         hdrs.append((b"content-encoding", bytes(case["cenc"])))
     if kind == "http-req":
@@ -455,6 +473,10 @@ def check_case(case, ctx):
     except Exception:
         ctx.cls("dns-message-not-unpackable")
         return
+    if case["msg"].startswith("http") or case["msg"].startswith("ws"):
+        ct = case["ctype"]
+        ctx.cls("ctype:" + ("absent" if ct is None else "wellformed" if re.fullmatch(rb"[A-Za-z0-9.+*-]+/[A-Za-z0-9.+*-]+(; ?[a-z]+=[A-Za-z0-9-]+)*", bytes(ct)) else "degenerate")
+                + ("+dup" if case.get("ctype2") is not None else ""))
     chosen = case["view"]
     try:
         from mitmproxy.contentviews._utils import get_data, make_metadata
